@@ -467,4 +467,20 @@ for _cid in ('C01', 'C02', 'C07', 'C14', 'C20'):
                          'chunk (sequences of any length, loop cut); the recursive rule walker forwards each rule\'s chunks in order, substitutes the '
                          'error handler\'s answer for a rule that raises, and restores the node / source-path stacks (definitions of <= 3 rules).'))
 
+# ---- sixth round (seeds J/K) ---------------------------------------------------------------------------------------------
+_upd('C06', text_add='Added: every look-alike spelling of a reserved word (case variants; characters whose case mapping or NFKC form is an ASCII letter '
+                     'sequence: long s, dotless i, ligatures, full-width letters) is lexed as an identifier.')
+_upd('C08', text_add='Added: files combined after being read through io.read, equal texts included: every fragment names the file its text was read from.')
+_upd('C12', text_add='Added: errors directly behind tokens whose text is special to string formatting; the position contracts of C06 are imported; every '
+                     'hand-written corpus program is used in the quick tier too.')
+_upd('C13', text_add='Added: the position contracts of C06 are imported; comment shapes containing and followed by every ES5 line terminator.')
+_upd('C14', text_add='Frame analysis rule added: a module-level mutable object stored uncopied in an instance attribute and mutated through it.')
+_upd('C17', text_add='Added: unlink_modules under contract (each path unlinked once in order; a failing unlink stops the helper with that error).')
+_upd('C18', text_add='Added: the re-labelled syntax error keeps the class the parser raised (contract variant with a subclass, bounded witness over real '
+                     'syntax errors); the inline data URL is decoded with the standard base64 alphabet only, names reaching + and / at every alignment.')
+_upd('C19', text_add='Added: reserved words and the vocabulary of objects as keys (per node kind and in the JSON corpus).')
+_upd('C20', text_add='Added: the source-level helper calmjs.parse.es5.pretty_print with the indentation string given by position and by keyword.')
+for _cid in ('C01', 'C02'):
+    _upd(_cid, text_add='Corpus: an expression-ending `}` followed by a division; a regular expression starting with `=` behind a block, same and next line.')
+
 NOT_APPLICABLE = {}
